@@ -517,7 +517,7 @@ fn corpus(jobs: &mut Vec<Job>) {
     let t = table(vec![("id", ColType::Id, ints(&[1, 2, 3])), ("c1", ColType::Int("small"), oints(&[Some(5), None, None]))]);
     jobs.push(Job { prefix: "corpus:arith-absent-column/".into(), t, reals: vec![one(3), fixed_real(vec![0, 1, 3], vec![true, false], true, 999, Mode::Mem), fixed_real(vec![0, 2, 3], vec![true, true], true, 999, Mode::Cold)],
         queries: ['+', '-', '%', '*', '/'].iter().map(|op| Query { kind: Kind::Sel, items: vec![Item::Expr(Ex::Col(0)), Item::Expr(Ex::Arith(*op, Box::new(Ex::Col(1)), Box::new(Ex::Lit(Cell::Int(2)))))], pred: None, order: vec![], limit: None, offset: 0, feat: format!("w-+arith{}", op) }).collect() });
-    // groupby-valrows-streamed (C02/C04, open): two grouping columns, one a packed string column, partition longer than batch_size
+    // groupby-valrows-streamed, repaired part (3cc8efd + b5a9fe3): two grouping columns, one a packed string column, partition longer than batch_size
     let strs: Vec<Cell> = (0..16).map(|i| Cell::Str(format!("k{}", i))).collect();
     let t = table(vec![("id", ColType::Id, ints(&(0..16).collect::<Vec<i64>>())), ("c1", ColType::Str("highcard"), strs)]);
     let bs = |b: usize, bounds: Vec<usize>, flush: Vec<bool>| { let mut r = fixed_real(bounds, flush, false, 999, Mode::Mem); r.r.batch_size = b; r };
@@ -568,6 +568,19 @@ fn corpus(jobs: &mut Vec<Job>) {
     let t = table(vec![("id", ColType::Id, ints(&[0, 1, 2])), ("c1", ColType::Int("u8off"), ints(&[1000000000000, 1000000000007, 1000000000005]))]);
     jobs.push(Job { prefix: "corpus:executor-pinned-buffer/".into(), t, reals: vec![one(3), fixed_real(vec![0, 3], vec![true], false, 999, Mode::Mem), fixed_real(vec![0, 1, 3], vec![true, false], false, 999, Mode::Mem)],
         queries: vec![q_agg(Kind::Grp, vec![Item::Key(1), Item::Agg("max", 1)], "w-+i:ma")] });
+    // groupby-valrows-streamed (C02/C04, open, what is left of it): two keys through value rows (one beyond -2^62), partition of 20 rows
+    // longer than batch_size 8: integer keys unpacked from the value rows are NULL after the first chunk (ValToNullableInt, block output)
+    let base: i64 = -9223372034272233317;
+    let t = table(vec![("id", ColType::Id, ints(&(0..20).collect::<Vec<i64>>())),
+        ("c1", ColType::Int("u32off"), (0..20).map(|i| if i == 7 || i == 14 { Cell::Null } else { Cell::Int(base + i * 1000003) }).collect()),
+        ("c2", ColType::Int("const"), (0..20).map(|i| if i == 0 || i == 7 || i == 15 { Cell::Null } else { Cell::Int(1) }).collect())]);
+    jobs.push(Job { prefix: "corpus:groupby-valrows-streamed/".into(), t, reals: vec![one(20), bs(8, vec![0, 20], vec![true]), bs(8, vec![0, 20], vec![false]), bs(16, vec![0, 20], vec![true])],
+        queries: vec![q_agg(Kind::Grp, vec![Item::Key(2), Item::Key(1), Item::Agg("max", 0)], "w-+ii:ma")] });
+    // stream-cross-stage (C02, repaired 3cc8efd): a streaming consumer kept out of its producer's stage read only the last chunk;
+    // two bit-packed grouping keys under a WHERE filter, partition (9 rows) longer than batch_size 8 -> select.rs:18 index out of bounds
+    let t = table(vec![("id", ColType::Id, ints(&(0..9).collect::<Vec<i64>>())), ("c1", ColType::Int("u32"), oints(&[None, None, None, None, Some(2524280149), None, Some(2960532428), None, Some(3657551397)]))]);
+    jobs.push(Job { prefix: "corpus:stream-cross-stage/".into(), t, reals: vec![one(9), bs(8, vec![0, 9], vec![false]), bs(8, vec![0, 9], vec![true]), bs(8, vec![0, 2, 9], vec![true, false]), bs(16, vec![0, 9], vec![true])],
+        queries: vec![Query { kind: Kind::Grp, items: vec![Item::Key(1), Item::Key(1), Item::Agg("max", 0), Item::Agg("count", 0)], pred: Some(Ex::Cmp(">", Box::new(Ex::Col(0)), Box::new(Ex::Lit(Cell::Int(-9))))), order: vec![], limit: None, offset: 0, feat: "w:i>+ii:maco".into() }] });
     // sum-sentinel (C04/C06/C02, open): a partial SUM equal to i64::MAX is taken for NULL when merged
     let t = table(vec![("id", ColType::Id, ints(&[1, 2, 3])), ("c1", ColType::Int("edges"), ints(&[i64::MAX - 2, 1, 1]))]);
     jobs.push(Job { prefix: "corpus:sum-sentinel/".into(), t, reals: vec![one(3), fixed_real(vec![0, 2, 3], vec![true, false], false, 999, Mode::Mem), fixed_real(vec![0, 1, 3], vec![true, false], false, 999, Mode::Mem)], queries: vec![q_agg(Kind::Agg, vec![Item::Agg("sum", 1)], "w-+su")] });
